@@ -1,16 +1,105 @@
 //! eng-host: see /verif/DESIGN.md section 5 (C14) and /verif/harness/ENGINE_GUIDE.md
-use vmon_core::{ChildCtx, Engine, Plan, Shard, Tier};
+mod allowlist;
+mod c14;
+mod gen;
+mod model_v0;
+mod model_v1;
+mod run_engine;
+mod script;
+
+use vmon_core::{ChildCtx, Engine, Plan, SanTier, Shard, Tier};
+
+#[global_allocator]
+static ALLOC: vmon_core::alloc::Counting = vmon_core::alloc::Counting;
 
 struct E;
+
+const ASSUME: &[&str] = &[
+    "reference interpreter and Wasm cost schedule transcription (wasmref) are correct; they share no code with /repo",
+    "the host-interface models (eng-host/src/model_v0.rs, model_v1.rs) and the transcription of constants.rs are correct; they use std, sha2, sha3 and ed25519-dalek only",
+    "shim crates for num_enum/slab/secp256k1/ed25519-zebra stand in for the real crates: secp256k1 verification always fails, ed25519-zebra is ed25519-dalek underneath",
+    "the harness plays the chain for interrupts: responses, new balances, re-entrant state changes (in a fresh generation) and energy deductions come from the script",
+    "scripts are straight-line modules of <= 256 host calls with one optional recursive helper; memory 1..32 pages, never grown",
+];
 
 impl Engine for E {
     fn name(&self) -> &'static str { "eng-host" }
 
-    fn props(&self) -> Vec<&'static str> { vec![] }
+    fn props(&self) -> Vec<&'static str> { vec!["C14"] }
 
-    fn plan(&self, _prop: &str, _tier: Tier) -> Plan { Plan::default() }
+    fn plan(&self, prop: &str, tier: Tier) -> Plan {
+        let quick = tier == Tier::Quick;
+        let mut p = Plan { assumptions: ASSUME.iter().map(|s| s.to_string()).collect(), ..Plan::default() };
+        if prop == "C14" {
+            p.cases = if quick { 1200 } else { 60_000 };
+            p.timeout_s = if quick { 600 } else { 3 * 3600 };
+            p.crash_is_violation = true;
+            p.hang_is_violation = true;
+            p.rule = "case = generated script of 1..40 v0/v1 host calls (random with hostile pointers/lengths/offsets/handles/tags, boundary scripts on and over each protocol limit, interrupt scripts, crypto scripts) compiled to a straight-line module, for one of P4..P7 and one cost schedule, plus a slice of the import/export allow-list probe table; evaluations = engine executions judged (ample budget twice, budget sweep, short-of-first-charge budgets) plus allow-list probes; distinct_nontrivial = distinct (module, environment) pairs whose reference run made >= 3 host calls and at least one host charge".into();
+            let mut floors: Vec<(String, u64)> = vec![];
+            let v0 = ["accept", "simple_transfer", "send", "combine_and", "combine_or", "get_parameter_size", "get_parameter_section", "get_policy_section", "log_event", "load_state", "write_state", "resize_state", "state_size", "get_init_origin", "get_receive_invoker", "get_receive_self_address", "get_receive_self_balance", "get_receive_sender", "get_receive_owner", "get_slot_time"];
+            for f in v0 {
+                floors.push((format!("host.v0.{}.calls", f), if quick { 15 } else { 300 }));
+            }
+            for s in script::V1_SIGS {
+                floors.push((format!("host.v1.{}.calls", s.name), if quick { 15 } else { 300 }));
+            }
+            for t in gen::LIMIT_TAGS {
+                floors.push((t.to_string(), if quick { 20 } else { 400 }));
+            }
+            let f = |k: &str, q: u64, t: u64| (k.to_string(), if quick { q } else { t });
+            floors.extend([
+                f("hostile.oob_pointer", 500, 20_000),
+                f("hostile.huge_len", 100, 4_000),
+                f("outcome.success", 2000, 100_000),
+                f("outcome.reject", 200, 10_000),
+                f("outcome.trap", 1000, 50_000),
+                f("outcome.out_of_energy", 5, 200),
+                f("energy.exact", 1500, 80_000),
+                f("energy.lower_bound", 100, 5_000),
+                f("budget.ooe_observed", 1000, 50_000),
+                f("budget.exact_remaining", 800, 40_000),
+                f("charge.short_budget_refused", 1000, 50_000),
+                f("charge.short_budget_refused.huge_len", 20, 1000),
+                f("alloc.delta_checked", 800, 40_000),
+                f("interrupt.resumed", 1000, 50_000),
+                f("interrupt.state_updated", 100, 5_000),
+                f("interrupt.state_unchanged", 300, 15_000),
+                f("interrupt.rolled_back", 50, 2_500),
+                f("interrupt.stale_handle_after_update", 100, 5_000),
+                f("interrupt.handle_used_after_unchanged", 100, 5_000),
+                f("interrupt.deterministic_reruns", 500, 25_000),
+                f("interrupt.response.failure", 30, 1500),
+                f("interrupt.response.contract_reject", 30, 1500),
+                f("interrupt.response.success_with_data", 100, 5000),
+                f("proto.P4", 500, 25_000),
+                f("proto.P5", 500, 25_000),
+                f("proto.P6", 500, 25_000),
+                f("proto.P7", 500, 25_000),
+                f("allowlist.documented_accepted", 500, 25_000),
+                f("allowlist.param_changed_rejected", 1000, 50_000),
+                f("allowlist.result_changed_rejected", 500, 25_000),
+                f("allowlist.duplicate_rejected", 500, 25_000),
+                f("allowlist.unknown_module_rejected", 500, 25_000),
+                f("allowlist.unknown_name_rejected", 300, 15_000),
+                f("allowlist.upgrade_gated", 20, 1000),
+                f("allowlist.other_version_rejected", 500, 25_000),
+                f("allowlist.export.init_ok", 50, 2500),
+                f("allowlist.export.bad_type_rejected", 500, 25_000),
+                f("allowlist.export.len101_rejected", 50, 2500),
+            ]);
+            p.floors = floors;
+            p.san = vec![SanTier { name: "asan", shards: 16, cases: if quick { 250 } else { 6_000 }, timeout_s: if quick { 600 } else { 3600 }, budget_s: if quick { 40 } else { 1200 } }];
+        }
+        p
+    }
 
-    fn run_child(&self, _ctx: &ChildCtx, out: &mut Shard) { out.inconclusive.push("not implemented".into()); }
+    fn run_child(&self, ctx: &ChildCtx, out: &mut Shard) {
+        match ctx.prop.as_str() {
+            "C14" => c14::run(ctx, out),
+            _ => out.inconclusive.push("unknown property".into()),
+        }
+    }
 }
 
 fn main() { vmon_core::main_engine(&E) }
